@@ -22,6 +22,13 @@ import numpy as np
 
 from . import probes, ref, sched, seams, world
 
+SIMULATED_LINE_TARGETS = (
+    ("pyxel.calibration.fitting_datatree", "ModelFittingDataTree._apply_parameters"),
+    ("pyxel.calibration.fitting_datatree", "ModelFittingDataTree.update_processor"),
+    ("pyxel.pipelines.processor", "Processor.set"),
+    ("pyxel.exposure.exposure", "run_pipeline"),
+)
+
 FITNESS = {
     "sum_of_abs_residuals": "pyxel.calibration.fitness.sum_of_abs_residuals",
     "sum_of_squared_residuals": "pyxel.calibration.fitness.sum_of_squared_residuals",
@@ -401,8 +408,16 @@ def run_calibration(scn: dict, *, simulate: bool = True, forced=None, compute_si
                 with rs.active(), calibration_seams(sim), sim.running():
                     tree = pyxel.run_mode(mode=cal, detector=det, pipeline=pipe, with_inherited_coords=True)
                     if compute_simulated:
-                        rec["simulated"] = {k: np.asarray(tree[f"/simulated/{k}"].compute().values) for k in ("pixel", "signal", "image", "target")}
-                        rec["full_size"] = {k: np.asarray(tree[f"/full_size/simulated_{k}"].compute().values) for k in ("pixel", "signal", "image")}
+                        # the champions' re-simulation tasks of all islands run concurrently under the scheduler,
+                        # with line-level pre-emption inside the functions that prepare and run each re-simulation
+                        rt = scn["mode"]["result_type"]
+                        ls = seams.LineSeam(targets=SIMULATED_LINE_TARGETS)
+                        sim.policy, sim.preempt_p = "preempt", 0.25  # this phase is always explored pre-emptively
+                        with ls.active():
+                            rec["simulated"] = {rt: np.asarray(tree[f"/simulated/{rt}"].compute().values)}
+                            rec["full_size"] = {rt: np.asarray(tree[f"/full_size/simulated_{rt}"].compute().values)}
+                        rec["simulated"]["target"] = np.asarray(tree["/simulated/target"].values)
+                        rec["line_hits"] = ls.hits
             else:
                 tree = pyxel.run_mode(mode=cal, detector=det, pipeline=pipe, with_inherited_coords=True)
                 if compute_simulated:
